@@ -461,6 +461,8 @@ fn exec_call_inner(ctx: &mut Ctx, idx: usize, c: &Value, keep: &mut Option<Owned
                 match sys {
                     "mknod" => libc::mknodat(dfd, name.as_ptr(), libc::S_IFREG | mode, 0) as i64,
                     "mkfifo" => libc::mknodat(dfd, name.as_ptr(), libc::S_IFIFO | mode, 0) as i64,
+                    "mkchr" => libc::mknodat(dfd, name.as_ptr(), libc::S_IFCHR | mode, libc::makedev(1, 3)) as i64,
+                    "mkblk" => libc::mknodat(dfd, name.as_ptr(), libc::S_IFBLK | mode, libc::makedev(7, 0)) as i64,
                     "mkdir" => libc::mkdirat(dfd, name.as_ptr(), mode) as i64,
                     "symlink" => {
                         let t = cs(s(c, "target"));
